@@ -187,7 +187,7 @@ def pairs(ctx, op1, op2, cls='AccSignal'):
 
 
 SCENARIOS = {'staleness': staleness, 'pairs': pairs}
-SELFTEST_PER_SCENARIO = 40
+SELFTEST_PER_SCENARIO = 10
 SELFTEST_NVEC = 1
 
 
